@@ -129,6 +129,24 @@ def gen_cases(tier, seed):
             # a colour used by exactly one module (the dark module): the shortest possible path
             kw['dark_module'] = rng.choice(['red', '#f0f', 'gold', '#123'])
         cases.append({'kind': 'colourful', 'out': kind, 'version': v, 'seed': rng.randrange(1 << 30), 'kw': kw, 'tag': tag})
+    # always: a colour that belongs to a single module (the dark module) next to large areas of few colours, with and
+    # without class attributes / with a long colour value - the order in which an SVG writer emits its paths must not matter
+    for v in (1, 2, 7, 'M3'):
+        for base in ({'dark': '#000', 'light': '#fff'}, {'dark': 'navy', 'light': '#ffff0080'}, {'dark': '#123', 'light': None},
+                     {'dark': 'black', 'light': 'white', 'finder_dark': 'black', 'quiet_zone': 'white'}):
+            for opts in ({'lineclass': None}, {}, {'lineclass': '', 'svgclass': None}, {'lineclass': None, 'draw_transparent': True}):
+                for kind in ('svg', 'png', 'ppm'):
+                    if kind != 'svg' and opts:
+                        continue
+                    if kind == 'ppm' and (base['light'] is None or str(base['light']).endswith('80')):
+                        continue
+                    kw = dict(base, **opts)
+                    if not isinstance(v, str):
+                        kw['dark_module'] = rng.choice(['red', 'blue', '#0f0'])
+                    else:
+                        kw['separator'] = 'red'
+                    kw['border'] = rng.choice([0, 1, None])
+                    cases.append({'kind': 'colourful', 'out': kind, 'version': v, 'seed': rng.randrange(1 << 30), 'kw': kw, 'tag': 'single-module-colour'})
     rng.shuffle(cases)
     return cases
 
